@@ -196,7 +196,9 @@ func (c *Ctx) Anchor(rule, name string) {
 }
 
 // Note adds an informational note to the evidence.
-func (c *Ctx) Note(format string, args ...any) { c.Notes = append(c.Notes, fmt.Sprintf(format, args...)) }
+func (c *Ctx) Note(format string, args ...any) {
+	c.Notes = append(c.Notes, fmt.Sprintf(format, args...))
+}
 
 // ----- known findings -----
 
